@@ -102,6 +102,10 @@ def jB (a : List (String × String)) (b : Bins Item) : String :=
   match (a.find? (·.1 == "out")).map (·.2) with
   | some ot => jOut ot b
   | none => jBins b
+def jSEvent : SEvent → String
+  | .optimal vals => "[\"optimal\"," ++ jNats vals ++ "]"
+  | .generator vals b => "[\"generator\"," ++ jNats vals ++ "," ++ toString b ++ "]"
+
 def jE (a : List (String × String)) (r : Except Err (Bins Item)) : String :=
   match r with
   | .ok b => jB a b
@@ -234,6 +238,12 @@ def dispatch (op : String) (a : Args) : Option String :=
       pure (jE a (snp val nmOf (← a.nat "k") (← a.bool "contents") (← a.items "items") FUEL))
   | "rnp" => do
       pure (jE a (rnpF val nmOf (← a.nat "k") (← a.bool "contents") (← a.items "items") FUEL))
+  | "snp_trace" => do
+      let r := snpT val nmOf (← a.nat "k") (← a.bool "contents") (← a.items "items") FUEL
+      pure ("{\"result\":" ++ jE a r.1 ++ ",\"trace\":" ++ jList jSEvent r.2 ++ "}")
+  | "rnp_trace" => do
+      let r := rnpFT val nmOf (← a.nat "k") (← a.bool "contents") (← a.items "items") FUEL
+      pure ("{\"result\":" ++ jE a r.1 ++ ",\"trace\":" ++ jList jSEvent r.2 ++ "}")
   | "cg" => do
       let cfg : CgCfg := { obj := (← a.get "obj" >>= parseObjective), useLb := (← a.bool "lb"),
                            useFast := (← a.bool "fast"), useH3 := (← a.bool "h3"), useSeen := (← a.bool "seen") }
